@@ -151,7 +151,7 @@ func (s *Scenario) RawMsgDoc(doc string) {
 	}
 }
 
-var mutsRedirect = []string{"", "", "bitflip-sig", "bitflip-signed-msg", "strip-sig", "sigalg-only", "sig-only", "swap-relay", "alg-subst", "move-to-post", "param-split", "split-forged-body"}
+var mutsRedirect = []string{"", "", "malformed-sig-param", "malformed-sig-param-semicolon", "malformed-sig-params-both", "malformed-sig-params-both", "bitflip-sig", "bitflip-signed-msg", "strip-sig", "sigalg-only", "sig-only", "swap-relay", "alg-subst", "move-to-post", "param-split", "split-forged-body"}
 var mutsPost = []string{"", "", "bitflip-msg", "bitflip-sigvalue", "foreign-keyinfo", "wrap-cert", "move-to-redirect", "move-to-redirect-tampered", "post-detached-sig", "post-detached-sig-bad", "param-split"}
 
 // StreamSigned: signing requirement flags x signing x mutations of validly signed messages
@@ -188,6 +188,26 @@ func StreamSigned(r *rand.Rand, n int) []*Scenario {
 	return out
 }
 
+// acsLocation: mostly https URLs, but also the other shapes metadata may legally or sloppily carry: plain http on an
+// intranet host, a URL with a port, a scheme-less or path-only location, leading white space
+// (relative locations only for POST entries: http.Redirect resolves a relative Location against the request path, which the
+// projection does not model; a leading blank makes html/template replace the action by its #ZgotmplZ placeholder -- C17's subject)
+func acsLocation(r *rand.Rand, j int, suffix, binding string) string {
+	switch r.Intn(12) {
+	case 0:
+		return fmt.Sprintf("http://intranet.example:8080/acs%d%s", j, suffix)
+	case 1:
+		if binding == idp.PostBinding {
+			return fmt.Sprintf("sp.example/acs%d%s", j, suffix)
+		}
+	case 2:
+		if binding == idp.PostBinding {
+			return fmt.Sprintf("/saml/acs%d%s", j, suffix)
+		}
+	}
+	return fmt.Sprintf("https://sp.example/acs%d%s", j, suffix)
+}
+
 var acsBindings = []string{idp.PostBinding, idp.RedirBinding, idp.ArtifactBinding, idp.PAOSBinding, "urn:example:unknown-binding"}
 
 // StreamBindings: ACS shapes (supported / unsupported bindings), late failures, persistence faults
@@ -201,8 +221,9 @@ func StreamBindings(r *rand.Rand, n int) []*Scenario {
 		}
 		s.SP.ACS = nil
 		for j := 0; j < k; j++ {
+			bn := pick(r, acsBindings)
 			s.SP.ACS = append(s.SP.ACS, idp.ACS{Index: pick(r, []string{"0", "1", "2", "7"}), IsDefault: pick(r, []string{"", "", "true", "false", "1"}),
-				Binding: pick(r, acsBindings), Location: fmt.Sprintf("https://sp.example/acs%d%s", j, pick(r, []string{"", "", "?x=1"}))})
+				Binding: bn, Location: acsLocation(r, j, pick(r, []string{"", "", "?x=1"}), bn)})
 		}
 		s.Req.ProtocolBinding = pick(r, []*string{nil, idp.S(idp.PostBinding), idp.S(idp.RedirBinding), idp.S(idp.ArtifactBinding), idp.S("urn:example:unlisted")})
 		s.Transport = pick(r, []string{"redirect", "post"})
@@ -244,8 +265,9 @@ func StreamForeign(r *rand.Rand, n int) []*Scenario {
 		k := 1 + r.Intn(3)
 		s.SP.ACS = nil
 		for j := 0; j < k; j++ {
-			s.SP.ACS = append(s.SP.ACS, idp.ACS{Index: fmt.Sprint(j), IsDefault: pick(r, []string{"", "true"}), Binding: pick(r, acsBindings[:2]),
-				Location: fmt.Sprintf("https://sp.example/acs%d%s", j, pick(r, []string{"", "?tenant=a&x=1"}))})
+			bn := pick(r, acsBindings[:2])
+			s.SP.ACS = append(s.SP.ACS, idp.ACS{Index: fmt.Sprint(j), IsDefault: pick(r, []string{"", "true"}), Binding: bn,
+				Location: acsLocation(r, j, pick(r, []string{"", "?tenant=a&x=1"}), bn)})
 		}
 		out = append(out, s)
 	}
